@@ -108,6 +108,12 @@ Proof.
   split; [exact BridgeRunner.bridge_duplicates|]. intros. apply BridgeRunner.bridge_run.
 Qed.
 
+(* the spellings of fn_args / cases / combos / var_names / var_dims are normalised by the pinned functions of
+   prepare.py (bare values wrapped, strings not split, dicts kept, duplicates refused) *)
+Theorem C02_spellings_pinned : GenRunner.gen_prepare_is_pinned = true.
+Proof. exact BridgeRunner.bridge_prepare_pinned. Qed.
+
+Print Assumptions C02_spellings_pinned.
 Print Assumptions C02_code_tie.
 Print Assumptions C02_calls_exact.
 Print Assumptions C02_grid_spans_union.
